@@ -1,52 +1,53 @@
 import PytezosModel.Proofs.InterpRefine
-/-! The guard of `Spec.eval` only removes behaviours: whatever the guarded reference semantics computes, the
-unguarded one (the plain Michelson reference) computes too. -/
+/-! The guard of `Spec.eval` only removes behaviours: as long as the guarded reference semantics does not answer
+`offguard`, the unguarded one (the plain Michelson reference) computes exactly the same outcome — stack, FAILWITH value,
+runtime failure, out of fuel, or stuck. -/
 namespace Interp
 
-theorem listOf_guard (body : Instr) (t : Ty) (st ys : List Val) (r : Val)
-    (h : Spec.listOf true body t st ys = .ok r) : Spec.listOf false body t st ys = .ok r := by
+theorem listOf_guard (body : Instr) (t : Ty) (st ys : List Val)
+    (h : Spec.listOf true body t st ys ≠ .offguard) : Spec.listOf false body t st ys = Spec.listOf true body t st ys := by
   cases ys with
   | nil =>
     simp only [Spec.listOf] at h ⊢
     cases hm : Spec.mapOutTy body t st with
-    | none => simp [hm] at h
+    | none => rfl
     | some t' =>
       simp only [hm] at h ⊢
       by_cases ht : t' = t
-      · subst ht; simpa using h
+      · subst ht; simp
       · simp [ht] at h
-  | cons y rest => simpa [Spec.listOf] using h
+  | cons y rest => simp [Spec.listOf]
 
-theorem mapOf_guard (body : Instr) (k v : Ty) (st ys : List Val) (r : Val)
-    (h : Spec.mapOf true body k v st ys = .ok r) : Spec.mapOf false body k v st ys = .ok r := by
+theorem mapOf_guard (body : Instr) (k v : Ty) (st ys : List Val)
+    (h : Spec.mapOf true body k v st ys ≠ .offguard) : Spec.mapOf false body k v st ys = Spec.mapOf true body k v st ys := by
   cases ys with
   | nil =>
     simp only [Spec.mapOf] at h ⊢
     cases hm : Spec.mapOutTy body (.pair k v) st with
-    | none => simp [hm] at h
+    | none => rfl
     | some t' =>
       simp only [hm] at h ⊢
       by_cases ht : t' = v
-      · subst ht; simpa using h
+      · subst ht; simp
       · simp [ht] at h
-  | cons y rest => cases y <;> simpa [Spec.mapOf] using h
+  | cons y rest => cases y <;> simp [Spec.mapOf]
 
 def GEval (env : Env) (f : Nat) : Prop :=
-  ∀ i st, Spec.eval true env f i st ≠ .err → Spec.eval false env f i st = Spec.eval true env f i st
+  ∀ i st, Spec.eval true env f i st ≠ .offguard → Spec.eval false env f i st = Spec.eval true env f i st
 def GSeq (env : Env) (f : Nat) : Prop :=
-  ∀ is st, Spec.evalSeq true env f is st ≠ .err → Spec.evalSeq false env f is st = Spec.evalSeq true env f is st
+  ∀ is st, Spec.evalSeq true env f is st ≠ .offguard → Spec.evalSeq false env f is st = Spec.evalSeq true env f is st
 def GIter (env : Env) (f : Nat) : Prop :=
-  ∀ b xs st, Spec.evalIter true env f b xs st ≠ .err → Spec.evalIter false env f b xs st = Spec.evalIter true env f b xs st
+  ∀ b xs st, Spec.evalIter true env f b xs st ≠ .offguard → Spec.evalIter false env f b xs st = Spec.evalIter true env f b xs st
 def GMap (env : Env) (f : Nat) : Prop :=
-  ∀ b m xs st, Spec.evalMap true env f b m xs st ≠ .err → Spec.evalMap false env f b m xs st = Spec.evalMap true env f b m xs st
+  ∀ b m xs st, Spec.evalMap true env f b m xs st ≠ .offguard → Spec.evalMap false env f b m xs st = Spec.evalMap true env f b m xs st
 
-theorem bind_ne_err' {α β : Type} {r : Res α} {k : α → Res β} (h : r.bind k ≠ .err) : r ≠ .err := by
+theorem bind_ne_offguard' {α β : Type} {r : Res α} {k : α → Res β} (h : r.bind k ≠ .offguard) : r ≠ .offguard := by
   intro e; subst e; exact h rfl
 
 /-- rewrite a guarded sub-evaluation followed by a continuation -/
-theorem bind_congr_guard {α β : Type} (a b : Res α) (k : α → Res β) (hab : b ≠ .err → a = b) (h : b.bind k ≠ .err) :
+theorem bind_congr_guard {α β : Type} (a b : Res α) (k : α → Res β) (hab : b ≠ .offguard → a = b) (h : b.bind k ≠ .offguard) :
     a.bind k = b.bind k := by
-  rw [hab (bind_ne_err' h)]
+  rw [hab (bind_ne_offguard' h)]
 
 theorem gseq_succ (env : Env) (f : Nat) (hE : GEval env f) (hS : GSeq env f) : GSeq env (f + 1) := by
   intro is st hr
@@ -54,11 +55,14 @@ theorem gseq_succ (env : Env) (f : Nat) (hE : GEval env f) (hS : GSeq env f) : G
   | nil => simp [Spec.evalSeq]
   | cons i is =>
     simp only [Spec.evalSeq] at hr ⊢
-    have h1 := bind_ne_err' hr
+    have h1 := bind_ne_offguard' hr
     rw [hE i st h1]
     cases hq : Spec.eval true env f i st with
-    | err => exact absurd hq h1
-    | failed v => rfl
+    | offguard => exact absurd hq h1
+    | failed _ => rfl
+    | rtfail => rfl
+    | oof => rfl
+    | stuck => rfl
     | ok st' => simp only [hq, rbind_ok] at hr ⊢; exact hS is st' hr
 
 theorem giter_succ (env : Env) (f : Nat) (hE : GEval env f) (hI : GIter env f) : GIter env (f + 1) := by
@@ -67,11 +71,14 @@ theorem giter_succ (env : Env) (f : Nat) (hE : GEval env f) (hI : GIter env f) :
   | nil => simp [Spec.evalIter]
   | cons x xs =>
     simp only [Spec.evalIter] at hr ⊢
-    have h1 := bind_ne_err' hr
+    have h1 := bind_ne_offguard' hr
     rw [hE b (x :: st) h1]
     cases hq : Spec.eval true env f b (x :: st) with
-    | err => exact absurd hq h1
-    | failed v => rfl
+    | offguard => exact absurd hq h1
+    | failed _ => rfl
+    | rtfail => rfl
+    | oof => rfl
+    | stuck => rfl
     | ok st' => simp only [hq, rbind_ok] at hr ⊢; exact hI b xs st' hr
 
 theorem gmap_succ (env : Env) (f : Nat) (hE : GEval env f) (hM : GMap env f) : GMap env (f + 1) := by
@@ -80,11 +87,14 @@ theorem gmap_succ (env : Env) (f : Nat) (hE : GEval env f) (hM : GMap env f) : G
   | nil => simp [Spec.evalMap]
   | cons x xs =>
     simp only [Spec.evalMap] at hr ⊢
-    have h1 := bind_ne_err' hr
+    have h1 := bind_ne_offguard' hr
     rw [hE b (x :: st) h1]
     cases hq : Spec.eval true env f b (x :: st) with
-    | err => exact absurd hq h1
-    | failed v => rfl
+    | offguard => exact absurd hq h1
+    | failed _ => rfl
+    | rtfail => rfl
+    | oof => rfl
+    | stuck => rfl
     | ok r =>
       simp only [hq, rbind_ok] at hr ⊢
       cases r with
@@ -94,12 +104,12 @@ theorem gmap_succ (env : Env) (f : Nat) (hE : GEval env f) (hM : GMap env f) : G
         cases m with
         | false =>
           simp only [rbind_ok] at hr ⊢
-          have h3 := bind_ne_err' hr
+          have h3 := bind_ne_offguard' hr
           rw [hM b false xs st' h3]
         | true =>
-          cases x <;> first | (exact absurd rfl hr) | skip
+          cases x <;> first | rfl | skip
           simp only [rbind_ok] at hr ⊢
-          have h3 := bind_ne_err' hr
+          have h3 := bind_ne_offguard' hr
           rw [hM b true xs st' h3]
 
 /-- tactic: both sides are the same reference rule applied to guarded / unguarded sub-evaluations -/
@@ -110,14 +120,17 @@ macro_rules
       simp only [Spec.eval] at hr ⊢
       first
         | exact hE _ _ hr
-        | (have h1 := bind_ne_err' hr
+        | (have h1 := bind_ne_offguard' hr
            rw [hE _ _ h1]
            done)
-        | (have h1 := bind_ne_err' hr
+        | (have h1 := bind_ne_offguard' hr
            rw [hE _ _ h1]
            cases hq : Spec.eval true env f _ _ with
-           | err => exact absurd hq h1
-           | failed v => rfl
+           | offguard => exact absurd hq h1
+           | failed _ => rfl
+           | rtfail => rfl
+           | oof => rfl
+           | stuck => rfl
            | ok st' => (simp only [hq, rbind_ok] at hr ⊢; first | rfl | exact hE _ _ hr))))
 
 theorem geval_succ (env : Env) (f : Nat) (hE : GEval env f) (hS : GSeq env f) (hI : GIter env f) (hM : GMap env f) :
@@ -135,7 +148,7 @@ theorem geval_succ (env : Env) (f : Nat) (hE : GEval env f) (hS : GSeq env f) (h
     simp only [Spec.eval] at hr ⊢
     by_cases hn : n ≤ st.length
     · simp only [hn, if_true] at hr ⊢
-      have h1 := bind_ne_err' hr
+      have h1 := bind_ne_offguard' hr
       rw [hE _ _ h1]
     · simp [hn]
   case IF a b =>
@@ -179,34 +192,34 @@ theorem geval_succ (env : Env) (f : Nat) (hE : GEval env f) (hS : GSeq env f) (h
     · cases c <;> first | (simp [Spec.eval]; done) | skip
       · rename_i t xs
         simp only [Spec.eval] at hr ⊢
-        have h1 := bind_ne_err' hr
+        have h1 := bind_ne_offguard' hr
         rw [hM _ _ _ _ h1]
         cases hq : Spec.evalMap true env f body false xs st with
-        | err => exact absurd hq h1
-        | failed v => rfl
+        | offguard => exact absurd hq h1
+        | failed _ => rfl
+        | rtfail => rfl
+        | oof => rfl
+        | stuck => rfl
         | ok p =>
           obtain ⟨ys, st'⟩ := p
           simp only [hq, rbind_ok] at hr ⊢
-          have h2 := bind_ne_err' hr
-          cases hl : Spec.listOf true body t st ys with
-          | err => exact absurd hl h2
-          | failed v => exact absurd hl (listOf_ne_failed _ _ _ _ _ _)
-          | ok r => rw [listOf_guard body t st ys r hl]
+          have h2 := bind_ne_offguard' hr
+          rw [listOf_guard body t st ys h2]
       · rename_i k v xs
         simp only [Spec.eval] at hr ⊢
-        have h1 := bind_ne_err' hr
+        have h1 := bind_ne_offguard' hr
         rw [hM _ _ _ _ h1]
         cases hq : Spec.evalMap true env f body true xs st with
-        | err => exact absurd hq h1
-        | failed v => rfl
+        | offguard => exact absurd hq h1
+        | failed _ => rfl
+        | rtfail => rfl
+        | oof => rfl
+        | stuck => rfl
         | ok p =>
           obtain ⟨ys, st'⟩ := p
           simp only [hq, rbind_ok] at hr ⊢
-          have h2 := bind_ne_err' hr
-          cases hl : Spec.mapOf true body k v st ys with
-          | err => exact absurd hl h2
-          | failed w => exact absurd hl (mapOf_ne_failed _ _ _ _ _ _ _)
-          | ok r => rw [mapOf_guard body k v st ys r hl]
+          have h2 := bind_ne_offguard' hr
+          rw [mapOf_guard body k v st ys h2]
   case EXEC =>
     rcases st with _ | ⟨a, _ | ⟨l, st⟩⟩
     · simp [Spec.eval]
@@ -216,14 +229,14 @@ theorem geval_succ (env : Env) (f : Nat) (hE : GEval env f) (hS : GSeq env f) (h
       simp only [Spec.eval] at hr ⊢
       by_cases ht : typeOf a = ta
       · simp only [ht, if_true] at hr ⊢
-        have h1 := bind_ne_err' hr
+        have h1 := bind_ne_offguard' hr
         rw [hE _ _ h1]
       · simp [ht]
 
 theorem all_guard (env : Env) : ∀ f, GEval env f ∧ GSeq env f ∧ GIter env f ∧ GMap env f
   | 0 => by
     refine ⟨?_, ?_, ?_, ?_⟩
-    · intro i st hr; exact absurd (by simp [Spec.eval]) hr
+    · intro i st hr; simp [Spec.eval]
     · intro is st hr; cases is <;> simp [Spec.evalSeq]
     · intro b xs st hr; cases xs <;> simp [Spec.evalIter]
     · intro b m xs st hr; cases xs <;> simp [Spec.evalMap]
@@ -232,7 +245,7 @@ theorem all_guard (env : Env) : ∀ f, GEval env f ∧ GSeq env f ∧ GIter env 
     ⟨geval_succ env f hE hS hI hM, gseq_succ env f hE hS, giter_succ env f hE hI, gmap_succ env f hE hM⟩
 
 /-- the guard only removes behaviours -/
-theorem eval_guard (env : Env) (fuel : Nat) (i : Instr) (st : List Val) (h : Spec.eval true env fuel i st ≠ .err) :
+theorem eval_guard (env : Env) (fuel : Nat) (i : Instr) (st : List Val) (h : Spec.eval true env fuel i st ≠ .offguard) :
     Spec.eval false env fuel i st = Spec.eval true env fuel i st :=
   (all_guard env fuel).1 i st h
 
